@@ -318,6 +318,41 @@ fn gen_model_col(rng: &mut Rng, name: String, cat: Cat, n: usize, max_total: usi
     MCol { name, forced, declared, data, val_profile, idx_profile }
 }
 
+/// 21-100 (name, category) pairs: names interleave in sort order (common prefixes, json-style
+/// `\u{1}` paths) and a good share of the names carries 2-4 type categories, so the writer has
+/// to order more than 20 columns by (name, type)
+fn many_column_specs(rng: &mut Rng) -> Vec<(String, Cat)> {
+    let target = *rng.pick(&[21usize, 22, 25, 30, 40, 64, 100]);
+    let stems = ["a", "a\u{1}b", "a\u{1}b\u{1}c", "ab", "a0", "b", "j\u{1}k", "j\u{1}k\u{1}leaf", "j\u{1}kk", "j", "shared", "z", "A", "\u{e9}"];
+    let all = [Cat::Num, Cat::Bytes, Cat::Str, Cat::Bool, Cat::Ip, Cat::Date];
+    let mut specs: Vec<(String, Cat)> = vec![];
+    let mut guard = 0;
+    while specs.len() < target && guard < 2000 {
+        guard += 1;
+        let stem = *rng.pick(&stems);
+        let name = if rng.chance(1, 3) { stem.to_string() } else { format!("{stem}{}", rng.below(8)) };
+        let ncat = 1 + rng.weighted(&[40, 30, 18, 12]);
+        let mut cats = all.to_vec();
+        rng.shuffle(&mut cats);
+        for cat in cats.into_iter().take(ncat) {
+            if specs.len() < target && !specs.contains(&(name.clone(), cat)) {
+                specs.push((name.clone(), cat));
+            }
+        }
+    }
+    rng.shuffle(&mut specs);
+    specs
+}
+
+fn wide_class(n: usize) -> &'static str {
+    match n {
+        0..=20 => "<=20",
+        21..=40 => "21-40",
+        41..=70 => "41-70",
+        _ => "71-100",
+    }
+}
+
 // ---------------------------------------------------------------------------------------------
 // stream 1: ColumnarWriter -> bytes -> ColumnarReader
 
@@ -365,25 +400,34 @@ fn lenient_u64_check(ck: &Ck, handle: &DynamicColumnHandle, exp: &ColData, rep: 
 }
 
 fn columnar_case(case: u64, rng: &mut Rng, rep: &mut Report) {
-    let big = rng.chance(if thorough() { 10 } else { 14 }, 100);
-    let n = gen_num_rows(rng, big);
-    let ncols = if n >= 60_000 { rng.urange(1, 2) } else { rng.urange(1, 6) };
-    let max_total = if n >= 60_000 { 260_000 } else { 60_000 };
+    // one case in ~9 is a wide table: 21-100 columns, many names shared by 2-4 type categories
+    let many = case % 12 == 5 || rng.chance(1, 16);
+    let big = !many && rng.chance(if thorough() { 10 } else { 14 }, 100);
+    let n = if many { *rng.pick(&[1usize, 2, 17, 64, 65, 130, 300, 513]) } else { gen_num_rows(rng, big) };
+    let max_total = if n >= 60_000 { 260_000 } else if many { 1500 } else { 60_000 };
     let mut cols: Vec<MCol> = vec![];
-    let mut used: BTreeSet<(String, Cat)> = BTreeSet::new();
-    for i in 0..ncols {
-        let cat = pick_cat(rng);
-        // names: plain, json-like path with the \u{1} separator, or shared between categories
-        let name = match rng.below(6) {
-            0 => "shared".to_string(),
-            1 => format!("j\u{1}k{i}"),
-            2 => format!("j\u{1}k{i}\u{1}leaf"),
-            _ => format!("c{i}"),
-        };
-        if !used.insert((name.clone(), cat)) {
-            continue;
+    if many {
+        for (name, cat) in many_column_specs(rng) {
+            cols.push(gen_model_col(rng, name, cat, n, max_total, true));
         }
-        cols.push(gen_model_col(rng, name, cat, n, max_total, true));
+        rep.observe("wide tables (columns per columnar)", format!("columnar:{}", wide_class(cols.len())));
+    } else {
+        let ncols = if n >= 60_000 { rng.urange(1, 2) } else { rng.urange(1, 6) };
+        let mut used: BTreeSet<(String, Cat)> = BTreeSet::new();
+        for i in 0..ncols {
+            let cat = pick_cat(rng);
+            // names: plain, json-like path with the \u{1} separator, or shared between categories
+            let name = match rng.below(6) {
+                0 => "shared".to_string(),
+                1 => format!("j\u{1}k{i}"),
+                2 => format!("j\u{1}k{i}\u{1}leaf"),
+                _ => format!("c{i}"),
+            };
+            if !used.insert((name.clone(), cat)) {
+                continue;
+            }
+            cols.push(gen_model_col(rng, name, cat, n, max_total, true));
+        }
     }
     let doc_major = rng.bool();
     let perm: Option<Vec<u32>> = if n > 0 && n <= 6000 && rng.chance(1, 5) {
@@ -656,15 +700,22 @@ fn small_table_rows(rng: &mut Rng) -> usize {
 }
 
 fn merge_case(case: u64, rng: &mut Rng, rep: &mut Report) {
-    let k = 1 + rng.weighted(&[10, 30, 25, 20, 15]);
-    let big = rng.chance(if thorough() { 5 } else { 7 }, 100);
-    let npool = rng.urange(1, 4);
+    // one case in ~10 merges two (sometimes three) wide tables of 21-100 columns
+    let many = case % 12 == 7 || rng.chance(1, 20);
+    let k = if many { rng.urange(2, 3) } else { 1 + rng.weighted(&[10, 30, 25, 20, 15]) };
+    let big = !many && rng.chance(if thorough() { 5 } else { 7 }, 100);
     let mut pool: Vec<(String, Cat)> = vec![];
-    for i in 0..npool {
-        let cat = pick_cat(rng);
-        let name = if rng.chance(1, 5) { "shared".to_string() } else { format!("m{i}") };
-        if !pool.contains(&(name.clone(), cat)) {
-            pool.push((name, cat));
+    if many {
+        pool = many_column_specs(rng);
+        rep.observe("wide tables (columns per columnar)", format!("merge:{}", wide_class(pool.len())));
+    } else {
+        let npool = rng.urange(1, 4);
+        for i in 0..npool {
+            let cat = pick_cat(rng);
+            let name = if rng.chance(1, 5) { "shared".to_string() } else { format!("m{i}") };
+            if !pool.contains(&(name.clone(), cat)) {
+                pool.push((name, cat));
+            }
         }
     }
     // inputs
@@ -674,13 +725,15 @@ fn merge_case(case: u64, rng: &mut Rng, rep: &mut Report) {
             *rng.pick(&[65_000usize, 65_535, 65_536, 66_000, 70_000, 131_072])
         } else if big {
             *rng.pick(&[1usize, 535, 536, 537, 5000])
+        } else if many {
+            *rng.pick(&[1usize, 3, 64, 65, 200])
         } else {
             small_table_rows(rng)
         };
         let mut cols = vec![];
         for (name, cat) in &pool {
-            if rng.chance(3, 4) {
-                let max_total = if n > 60_000 { 150_000 } else { 20_000 };
+            if rng.chance(if many { 9 } else { 3 }, if many { 10 } else { 4 }) {
+                let max_total = if n > 60_000 { 150_000 } else if many { 800 } else { 20_000 };
                 cols.push(gen_model_col(rng, name.clone(), *cat, n, max_total, true));
             }
         }
@@ -1223,13 +1276,96 @@ fn check_segment(
     Some(SegSrc { rows })
 }
 
+/// adds a json FAST field and its model columns. `many`: 21-60 (path, value family) pairs whose
+/// paths interleave in sort order and mostly hold values of 2-3 families (numbers in some
+/// documents, strings / bools / dates in others)
+fn add_json_field(sb: &mut tantivy::schema::SchemaBuilder, cols: &mut Vec<TCol>, rng: &mut Rng, name: &str, n: usize, max_total: usize, many: bool) {
+    let expand = rng.bool();
+    let mut opts = JsonObjectOptions::default().set_fast(if rng.bool() { Some("raw") } else { None });
+    if expand {
+        opts = opts.set_expand_dots_enabled();
+    }
+    let f = sb.add_json_field(name, opts);
+    // sub-paths: (keys, access suffix, leaf kinds)
+    let mut specs: Vec<(Vec<String>, String, Vec<JLeaf>)> = vec![];
+    if many {
+        let target = *rng.pick(&[21usize, 24, 30, 45, 60]);
+        let stems: [&[&str]; 10] = [&["a"], &["a", "b"], &["a", "b", "c"], &["ab"], &["a0"], &["b"], &["j", "k"], &["j", "kk"], &["j"], &["z", "y"]];
+        let mut total = 0;
+        let mut guard = 0;
+        while total < target && guard < 1000 {
+            guard += 1;
+            let stem = *rng.pick(&stems);
+            let mut keys: Vec<String> = stem.iter().map(|s| s.to_string()).collect();
+            if !rng.chance(1, 3) {
+                let l = keys.len() - 1;
+                keys[l] = format!("{}{}", keys[l], rng.below(6));
+            }
+            let suffix = keys.join(".");
+            if specs.iter().any(|s| s.1 == suffix) {
+                continue;
+            }
+            let mut kinds = vec![JLeaf::Num, JLeaf::Str, JLeaf::Bool, JLeaf::Date];
+            rng.shuffle(&mut kinds);
+            kinds.truncate(1 + rng.weighted(&[30, 45, 25]));
+            total += kinds.len();
+            specs.push((keys, suffix, kinds));
+        }
+    } else {
+        let mut paths: Vec<(Vec<String>, String)> = vec![
+            (vec!["a".into()], "a".into()),
+            (vec!["b".into(), "c".into()], "b.c".into()),
+            (vec!["b".into(), "d".into()], "b.d".into()),
+            (vec!["deep".into(), "x".into(), "y".into()], "deep.x.y".into()),
+        ];
+        if expand {
+            paths.push((vec!["p.q".into()], "p.q".into()));
+        } else {
+            paths.push((vec!["p.q".into()], "p\\.q".into()));
+        }
+        rng.shuffle(&mut paths);
+        paths.truncate(rng.urange(1, 4));
+        for (keys, suffix) in paths {
+            let leaf = *rng.pick(&[JLeaf::Num, JLeaf::Num, JLeaf::Num, JLeaf::Str, JLeaf::Bool, JLeaf::Date]);
+            specs.push((keys, suffix, vec![leaf]));
+        }
+    }
+    for (keys, suffix, kinds) in specs {
+        for leaf in kinds {
+            let idxp = pick_idx_profile(rng);
+            let cnts = gen_counts(rng, n, idxp, if many { 600 } else { max_total.min(20_000) });
+            let (cat, flavor) = match leaf {
+                JLeaf::Num => (Cat::Num, *rng.pick(&NUM_FLAVORS)),
+                JLeaf::Str => (Cat::Str, NumFlavor::U64),
+                JLeaf::Bool => (Cat::Bool, NumFlavor::U64),
+                JLeaf::Date => (Cat::Date, NumFlavor::U64),
+            };
+            let (added, val_profile) = gen_coldata(rng, cat, flavor, &cnts);
+            cols.push(TCol {
+                access: format!("{name}.{suffix}"),
+                field: f,
+                keys: keys.clone(),
+                stored: added.clone(),
+                added,
+                forced: None,
+                val_profile,
+                idx_profile: idxp,
+                kind: format!("json:{leaf:?}:expand{}{}", expand as u8, if many { ":wide" } else { "" }),
+            });
+        }
+    }
+}
+
 fn tantivy_case(case: u64, rng: &mut Rng, rep: &mut Report) {
     // segments
-    let big = rng.chance(if thorough() { 4 } else { 6 }, 100);
-    let nseg = rng.urange(1, 4);
+    let many = case % 10 == 4 || rng.chance(1, 14);
+    let big = !many && rng.chance(if thorough() { 4 } else { 6 }, 100);
+    let nseg = if many { rng.urange(1, 2) } else { rng.urange(1, 4) };
     let chunk_sizes: Vec<usize> = (0..nseg)
         .map(|i| {
-            if big && i == 0 {
+            if many {
+                *rng.pick(&[1usize, 5, 64, 65, 150, 400])
+            } else if big && i == 0 {
                 *rng.pick(&[65_536usize, 65_537, 66_000, 70_000])
             } else if big {
                 *rng.pick(&[1usize, 500, 3000])
@@ -1246,8 +1382,8 @@ fn tantivy_case(case: u64, rng: &mut Rng, rep: &mut Report) {
     let grp_f = sb.add_u64_field("grp", NumericOptions::default().set_indexed());
     let mut cols: Vec<TCol> = vec![];
     let kinds = ["u64", "i64", "f64", "bool", "date", "ip", "bytes", "str", "json"];
-    let nfields = if big { rng.urange(2, 4) } else { rng.urange(3, 9) };
-    let mut json_done = false;
+    let nfields = if big { rng.urange(2, 4) } else if many { rng.urange(1, 4) } else { rng.urange(3, 9) };
+    let mut json_done = many;
     for fi in 0..nfields {
         let kind = *rng.pick(&kinds);
         let name = format!("f{fi}_{kind}");
@@ -1301,51 +1437,14 @@ fn tantivy_case(case: u64, rng: &mut Rng, rep: &mut Report) {
                     continue;
                 }
                 json_done = true;
-                let expand = rng.bool();
-                let mut opts = JsonObjectOptions::default().set_fast(if rng.bool() { Some("raw") } else { None });
-                if expand {
-                    opts = opts.set_expand_dots_enabled();
-                }
-                let f = sb.add_json_field(&name, opts);
-                // sub-paths: (keys, access suffix)
-                let mut paths: Vec<(Vec<String>, String)> = vec![
-                    (vec!["a".into()], "a".into()),
-                    (vec!["b".into(), "c".into()], "b.c".into()),
-                    (vec!["b".into(), "d".into()], "b.d".into()),
-                    (vec!["deep".into(), "x".into(), "y".into()], "deep.x.y".into()),
-                ];
-                if expand {
-                    paths.push((vec!["p.q".into()], "p.q".into()));
-                } else {
-                    paths.push((vec!["p.q".into()], "p\\.q".into()));
-                }
-                rng.shuffle(&mut paths);
-                paths.truncate(rng.urange(1, 4));
-                for (keys, suffix) in paths {
-                    let leaf = *rng.pick(&[JLeaf::Num, JLeaf::Num, JLeaf::Num, JLeaf::Str, JLeaf::Bool, JLeaf::Date]);
-                    let idxp = pick_idx_profile(rng);
-                    let cnts = gen_counts(rng, n, idxp, max_total.min(20_000));
-                    let (cat, flavor) = match leaf {
-                        JLeaf::Num => (Cat::Num, *rng.pick(&NUM_FLAVORS)),
-                        JLeaf::Str => (Cat::Str, NumFlavor::U64),
-                        JLeaf::Bool => (Cat::Bool, NumFlavor::U64),
-                        JLeaf::Date => (Cat::Date, NumFlavor::U64),
-                    };
-                    let (added, val_profile) = gen_coldata(rng, cat, flavor, &cnts);
-                    cols.push(TCol {
-                        access: format!("{name}.{suffix}"),
-                        field: f,
-                        keys,
-                        stored: added.clone(),
-                        added,
-                        forced: None,
-                        val_profile,
-                        idx_profile: idxp,
-                        kind: format!("json:{leaf:?}:expand{}", expand as u8),
-                    });
-                }
+                add_json_field(&mut sb, &mut cols, rng, &name, n, max_total, false);
             }
         }
+    }
+    if many {
+        // a json fast field with 21-60 (path, value family) columns in every segment
+        add_json_field(&mut sb, &mut cols, rng, "wide_json", n, max_total, true);
+        rep.observe("wide tables (columns per columnar)", format!("tantivy:{}", wide_class(cols.len() + 1)));
     }
     let schema = sb.build();
     let info = json!({"stream": "tantivy", "case": case, "segments": chunk_sizes,
